@@ -65,7 +65,10 @@ fn check_wipe(src: &str) -> Result<(), String> {
 /// one-byte InvalidToken locations at a non-whitespace character, and (len, len+1) for an unexpected end of file
 fn locations(src: &str) -> Vec<(Location, &'static str)> {
     let w = whipe_comments(src);
-    let mut v = vec![(Location(w.len(), w.len() + 1), "eof")];
+    // unexpected end of file: LALRPOP reports the end of the LAST TOKEN (not the end of the text), i.e. the byte after the last
+    // non-blank character of the blanked text; trailing blanks and line terminators come after it
+    let mut v = vec![];
+    if let Some((i, c)) = w.char_indices().filter(|(_, c)| !c.is_whitespace()).last() { let p = i + c.len_utf8(); v.push((Location(p, p + 1), "eof")); }
     let starts: Vec<usize> = w.char_indices().filter(|(_, c)| !c.is_whitespace()).map(|(i, _)| i).collect();
     let ends: Vec<usize> = w.char_indices().filter(|(_, c)| !c.is_whitespace()).map(|(i, c)| i + c.len_utf8()).collect();
     for &b in &starts { v.push((Location(b, b + 1), "invalid-token")); for &e in &ends { if e > b { v.push((Location(b, e), "token")); } } }
